@@ -12,6 +12,7 @@ R16.4 Combine               : Combine for HashSet is plain set union with the em
 """
 import itertools
 
+import re
 from .. import facts as F
 from .. import tabeval
 from .. import terms as T
@@ -608,6 +609,38 @@ def check_combine(fx, rep):
     rep.floor("R16.4", len(seen), 3, "Combine implementations (HashSet combine/identity, Option combine)")
 
 
+def check_structural_equality(fx, rep, rule):
+    """merge begins with `if left == right { return left }` and a class's evidence is a HashSet of expressions: both treat two
+    expressions as the same exactly when `==` / `Hash` say so. Only a structural equality (derived over every field of the
+    expression, its spans and its word usages) makes `the same` mean `carrying the same evidence`; an equality that ignores a
+    field keeps whichever of two differing judgements came first."""
+    from .. import srcattrs
+
+    n = 0
+    for ty in ("tc::expression::TypeExpression", "tc::expression::Span", "tc::expression::WordUse"):
+        adt = fx.adt(ty)
+        if not rep.anchor(rule, adt is not None, ty):
+            continue
+        outer, members = srcattrs.item_attrs(adt["span"])
+        derives = " ".join(a for a in outer if a.startswith("#[derive"))
+        deriv = [a for a in outer if "derivative(" in a]
+        std = all(re.search(r"\b%s\b" % t, derives) for t in ("PartialEq", "Hash"))
+        via_derivative = any(re.search(r"\bPartialEq\b", a) for a in deriv) or any(re.search(r"\bHash\b", a) for a in deriv)
+        ignored = sorted(k for k, attrs in members.items() if any("derivative" in a and "ignore" in a and ("PartialEq" in a or "Hash" in a) for a in attrs))
+        manual = [i for i in fx.impls if i.get("self_adt") == ty and (i.get("trait") or "").split("::")[-1] in ("PartialEq", "Hash") and not i.get("from_expansion")]
+        n += 1
+        ok = (std or via_derivative) and not ignored and not manual
+        rep.oblige(
+            ok,
+            rule,
+            f"structural-equality:{ty.split('::')[-1]}",
+            F.loc(adt["span"]),
+            f"equality / hashing of `{ty}` is not derived over all of its fields ({'ignores ' + ', '.join(ignored) if ignored else 'hand-written impl' if manual else 'no PartialEq + Hash derive found'}): two judgements that differ only there count as one, and which of them survives in a class (and whether the equal-operands shortcut of merge fires) depends on the order they arrive in",
+            sample={"rule": rule, "type": ty, "derive": derives[:120], "ignored_fields": ignored},
+        )
+    rep.floor(rule, n, 3, "types whose equality decides `the same evidence`")
+
+
 def check(fx, rep, tier):
     mm = MergeModel(fx)
     if not rep.anchor("R16.1", mm.ok, "; ".join(mm.problems) or "merge model"):
@@ -627,6 +660,7 @@ def check(fx, rep, tier):
 
     check_transparent_constructors(fx, rep, "R16.3")
     check_combine(fx, rep)
+    check_structural_equality(fx, rep, "R16.1")
     # the outcome may not depend on which type variables stand for the parts: no ordering by identity inside merge and its helpers
     from .c02 import check_identity_order
     from .. import facts as _F
